@@ -40,7 +40,7 @@ CHECKS = {
    design="4/C19"),
  "C02": dict(
    technique="property-based round-trip/differential testing (proptest) through a harness-written BIFF8 + compound-file encoder; metamorphic relation over all valid encodings of each number (NUMBER / RK int / int/100 / float / float/100 / MULRK grouping); exhaustive enumeration of all 2^32 RK words against a reference decoder (thorough; every 1021st word in quick)",
-   text="Generated workbooks with every cell record kind at boundary-heavy positions, unknown and bookkeeping records interleaved, are read back and compared with the MS-XLS semantics of each record; each case is read under two choices of encodings of the same numbers. The RK decoder is additionally enumerated over its complete 32-bit domain.",
+   text="Generated workbooks with every cell record kind at boundary-heavy positions (up to row 65535 / column 255), unknown and bookkeeping records interleaved, the rows of the cell table written ascending, descending or rotated, are read back and compared with the MS-XLS semantics of each record; each case is read under two choices of encodings of the same numbers. The RK decoder is additionally enumerated over its complete 32-bit domain.",
    note="Trusts the harness BIFF8 writer (enc/biff8.rs), its reference RK decoder and the CFB writer. Cell records are written in row order; formula strings fit one STRING record.",
    design="4/C02"),
  "C04": dict(
@@ -65,17 +65,17 @@ CHECKS = {
    design="4/C17"),
  "C03": dict(
    technique="property-based round-trip/differential testing (proptest) through a harness-written XLSB (BIFF12 record framing + ZIP) encoder; the model gives the expected value of every record kind; uninterpreted records (unknown ids, multi-byte ids and lengths) are interleaved; each number is stored under a generated choice of BrtCellRk / BrtCellReal / BrtFmlaNum",
-   text="Generated workbooks with every cell and formula record kind under generated BrtRowHdr sequences (gaps, empty rows, boundary rows/columns), shared strings with rich/phonetic payload, uninterpreted records between, before and after cells, error-valued and string-valued formulas; bounds, every value and used_cells are compared with the model through worksheet_range and worksheet_range_ref. Exploration: sheets up to a few dozen cells, three sheets.",
+   text="Generated workbooks with every cell and formula record kind under generated BrtRowHdr sequences (gaps, empty rows, boundary rows/columns up to the last row 1048575 and column 16383; uninterpreted records with 1- to 4-byte lengths, the latter >= 2 MiB), shared strings with rich/phonetic payload, uninterpreted records between, before and after cells, error-valued and string-valued formulas; bounds, every value and used_cells are compared with the model through worksheet_range and worksheet_range_ref. Exploration: sheets up to a few dozen cells, three sheets.",
    note="Trusts enc/xlsb.rs (varint framing, record layouts written from MS-XLSB) and its expected-value table. Parts use the names every producer writes; BrtWsDim present; rows ascend.",
    design="4/C03"),
  "C06": dict(
-   technique="structure-aware fault-injection fuzzing (proptest-generated fault lists applied to nine valid base documents built by the harness encoders: field-level boundary values, truncation, record length lies, FAT/DIFAT/directory edits, XML attribute edits, repeat counts, OVBA chunk edits, plus raw byte mutations); oracle = every reader and every read call returns, under fork-per-case isolation with a counting allocator (memory limit), thread-CPU clock (time limit) and panic capture with overflow checks on; saved regression corpus of one input per historical panic signature",
-   text="Each case assembles a valid xlsx / xlsx with shared formulas / xlsb / xls / xls with split SST / ods / xlsm with VBA / xls with VBA / bare compound file, applies 1-3 faults aimed at a structural element (so that inputs get past the container checks), and drives the complete read API of all four readers, auto-detection and the VBA reader in a forked child with debug assertions and overflow checks enabled. Verdicts: panic (with the source line as signature), allocation beyond 256 MiB live for inputs <= 1 MiB (refused by the allocator, attributed to the owner of the largest block), > 10 s CPU or no return within the case timeout twice. 6k cases quick, 400k thorough, plus the 80-input regression corpus. Exploration: no coverage guidance; faults are drawn from a fixed menu.",
+   technique="structure-aware fault-injection fuzzing plus coverage-guided fuzzing: proptest-generated fault lists applied to valid documents of 14 kinds built by the harness encoders (field-level boundary values, truncation, record length lies, token surgery on formula records, FAT/DIFAT/directory edits incl. cycles with inflated counts, XML attribute and reference edits, repeat counts, OVBA chunk edits, raw byte mutations); the same documents unfaulted; an exhaustive sweep of every formula token id x 0-11 operand bytes in xls and xlsb; thorough adds two libFuzzer targets (raw bytes; part list packed into a zip inside the target) whose artifacts are re-classified by the same oracle. Oracle = every reader and every read call returns, under fork-per-case isolation with a counting/limiting allocator (memory), thread-CPU clock and double-confirmed timeout (time), panic capture with overflow checks on; saved regression corpus of one input per historical panic signature",
+   text="Each case assembles a valid file, applies 1-3 faults aimed at a structural element (so that inputs get past the container checks), and drives the complete read API of all four readers, auto-detection and the VBA reader in a forked child with debug assertions and overflow checks enabled. Verdicts: panic (signature = source line text), allocation taking the live heap beyond 256 MiB for inputs <= 1 MiB (refused by the allocator, attributed to the owner of the largest block), > 10 s CPU or no return within the case timeout twice. Quick: 16k faulted + 4k well-formed files + 6096 token/length combinations + 85 regression inputs; thorough: 400k + 100k + 12192 + a 10-minute two-target libFuzzer campaign. Exploration: the fault menu is fixed; libFuzzer is bounded by time.",
    note="Three recorded known findings (dense Range allocation, identified by the allocating call site from_sparse / new / ods get_range) are tolerated by signature and printed as KNOWN-FINDING; any other signature is a violation. Time limits are CPU-time based with a wall-clock confirmation; a harness failure to isolate exits 2.",
    design="4/C06"),
  "C07": dict(
-   technique="model-based (stateful) property testing with proptest: generated histories of read calls (values, refs, formulas, merges, tables, VBA, metadata, header-row changes, unknown names) run against one long-lived workbook; oracle = the same call on a freshly opened workbook with only the header-row option replayed; plus the agreement relations between access paths after every step",
-   text="Histories of 1-25 calls over workbooks of all four formats (and the same bytes opened through auto-detection) built by the harness encoders, with several sheets, formulas, merges, tables and a VBA project. Each result is rendered and compared with the fresh-workbook result; worksheet_range vs worksheet_range_ref vs worksheet_range_at vs worksheets() are compared where the statement requires, unknown names must fail. Exploration: small workbooks, 3k histories quick / 60k thorough.",
+   technique="model-based (stateful) property testing with proptest: generated histories of read calls (values, refs, formulas, merges, tables owned and borrowed, VBA, metadata, header-row changes, unknown and near-miss names) run against one long-lived workbook and against the same bytes opened through auto-detection; oracle = the same call on a freshly opened workbook with only the header-row option replayed (first occurrence of each call/option pair), a memo for repeats, the default reads against the logical model, plus the agreement relations between access paths after every step",
+   text="Histories of 5-40 calls over workbooks of all four formats built by the harness encoders, with several sheets, formulas, merges, tables and a VBA project. Each result is rendered and compared with the fresh-workbook result and with earlier identical calls; worksheet_range vs worksheet_range_ref vs worksheet_range_at vs worksheets() are compared where the statement requires; unknown names and names that differ from a sheet name only in case, padding or a dropped character must fail. Exploration: small workbooks, 24k histories quick / 60k thorough.",
    note="Results are compared through Debug rendering (errors only by the fact of failing). Header rows far above the data are not generated (dense Range, see C06 known findings).",
    design="4/C07"),
  "C08": dict(
@@ -90,7 +90,7 @@ CHECKS = {
    design="4/C14"),
  "C16": dict(
    technique="property-based round-trip testing (proptest): generated workbook metadata (sheet order, names with XML-special / non-ASCII / astral characters, visibility, kind, defined names, date system) written by the four harness encoders and compared field by field with sheet_names / sheets_metadata / defined_names; a date-styled probe cell in every sheet checks the date-system flag",
-   text="1-6 sheets per workbook, any mixture of visible / hidden / very hidden and worksheet / chart / dialog / macro sheets as far as each format expresses them, 0-5 defined names (text in xlsx/ods, absolute 3-D token references in xls/xlsb, 8- and 16-bit names), 1900 and 1904 systems with prefixed workbookPr in xlsx.",
+   text="1-6 sheets per workbook, any mixture of visible / hidden / very hidden and worksheet / chart / dialog / macro sheets as far as each format expresses them, 0-5 defined names (text in xlsx/ods, absolute 3-D token references in xls/xlsb, 8- and 16-bit names), 1900 and 1904 systems with prefixed workbookPr in xlsx; sheetId numbering independent of position (descending, gaps, rotated); in every worksheet one date-styled probe cell per numeric storage kind (constant, RK, MULRK, cached formula result) must carry the workbook's date-system flag.",
    note="Trusts the encoders. Sheet names follow Excel's rules; every workbook has one visible worksheet.",
    design="4/C16"),
  "C18": dict(
@@ -100,7 +100,7 @@ CHECKS = {
    design="4/C18"),
  "C20": dict(
    technique="property-based testing (proptest), both directions: generated encrypted containers (EncryptedPackage + EncryptionInfo in generated compound-file layouts; FILEPASS of the XOR / RC4 / CryptoAPI kinds at generated positions of the globals substream; ods manifests with encryption-data on generated entries) must yield the format's password error; the same generators with the marker removed must open",
-   text="Positive: xlsx/xlsb readers over compound files whose layout is drawn from the C13 generator, xls with FILEPASS after BOF among generated globals records, ods with manifest:encryption-data on content.xml or other entries. Negative: the unencrypted twins and workbooks containing the literal text 'EncryptedPackage' / a 0x2F record id inside payloads must not be reported as protected.",
+   text="Positive: xlsx/xlsb readers over compound files whose layout is drawn from the C13 generator (about 1% of the packages are 7-9 MB, so that the container needs a DIFAT sector), BIFF8 xls with FILEPASS (XOR / RC4 / two CryptoAPI versions) after BOF among generated globals records, BIFF5 Book streams with the 4-byte XOR FILEPASS, ods with manifest:encryption-data on content.xml or on other entries only. Negative: the unencrypted twins and workbooks containing the literal text 'EncryptedPackage' as cell text, sheet name, zip entry or stream name must not be reported as protected.",
    note="Encrypted payloads are random bytes (the reader must decide before parsing them).",
    design="4/C20"),
 }
@@ -124,7 +124,7 @@ manifest = {
   },
   "engines": [
     {"name": "cverif", "path": "/verif/harness", "serves_properties": sorted(CHECKS),
-     "kind_free_text": "Rust binary `check`: seeded 16-thread proptest driver (TestRunner per thread, fixed ChaCha seeds derived from VERIF_SEED), shrinking, JSON replay files, known-findings plumbing, evidence writer; independent file-format encoders and reference models per property"},
+     "kind_free_text": "Rust binary `check` (plus the cargo-fuzz crate /verif/fuzz used by the thorough tier of C06): seeded 16-thread proptest driver (TestRunner per thread, fixed ChaCha seeds derived from VERIF_SEED), shrinking, JSON replay files, known-findings plumbing, evidence writer; independent file-format encoders and reference models per property"},
   ],
   "checks": [],
   "not_applicable": [{"property_id": k, "reason": v} for k, v in sorted(NOT_APPLICABLE.items())],
